@@ -20,7 +20,8 @@ META = {
                  "(shared target formula / shared ClauseDB) against fresh single-query groundings and the extracted oracle",
     "design_ref": "DESIGN.md §5 C08",
     "text": "History independence is proved for the semantics (relevant sub-program); table reuse in the engine "
-            "(target._cache) is tied by correspondence.",
+            "(target._cache) is tied by correspondence."
+            " C08_relevant is proved in full: the well-founded model is local on every dependency-closed cone, hence prob of a query equals prob in the sub-program reachable from query and evidence atoms; grounding further roots first cannot change it.",
     "note": "Trusted: Coq kernel, extraction + OCaml driver, generator/encoder, history driver.",
 }
 
